@@ -68,6 +68,13 @@ func c15Several(c *h.Ctx, id string, r *rand.Rand) {
 		}
 		fs[i] = &fetch{name: nm, want: raw}
 	}
+	if r.Intn(2) == 0 {
+		// the same object asked for twice at the same time (two parts of one application): each caller
+		// gets its own completion and the whole content
+		dup := *fs[r.Intn(len(fs))]
+		fs = append(fs, &dup)
+		c.Count("same_object_fetched_twice_at_once", 1)
+	}
 	for _, f := range fs {
 		f := f
 		cons.Consume(f.name.Clone(), func(s *object.ConsumeState) bool {
